@@ -12,7 +12,8 @@
 From WM Require Import Base.Prelude Message.Model Handler.RouterHandle Handler.RouterProofs
      GoChannel.Reg GoChannel.RegSend GoChannel.Sub GoChannel.SubProofs
      Pipeline.TopicModel Pipeline.TopicRefine
-     Pipeline.Model Pipeline.Proofs Pipeline.Final Pipeline.SubLink Corr.C01 Pipeline.Example.
+     Pipeline.Model Pipeline.Proofs Pipeline.Final Pipeline.SubLink Pipeline.ImmModel Pipeline.ImmProofs
+     Corr.C01 Pipeline.Example.
 
 Section C01.
   Context {M : Type}.
@@ -62,6 +63,29 @@ Section C01.
     (forall d, In d (unfollowed eqbM (dlog st)) -> In (d_msg d) (topic st (d_stage d)))
     /\ (quiescentb k st = true -> redelivery_ok eqbM (dlog st) = true).
   Proof. exact (redelivered_until_acked hf eqbM eqbM_spec). Qed.
+
+  (** redelivery is IMMEDIATE (C05's one-in-flight seen from the pipeline): [pstep_imm] = [pstep]
+      with the guard "while the last attempt of stage s ended in a Nack - its Sender still holds the
+      sending lock - only the same message can be attempted at s".  Every guarded run is a run
+      (so every theorem above holds of it), passes the monitor [immediate_ok], is finite under every
+      scheduler, and is never blocked by the guard while something is pending *)
+  Theorem C01_guarded_run_is_run : forall k sc ls st,
+    prun_imm hf eqbM rt_handle k sc st ls
+    = prun hf eqbM rt_handle k sc st (taken_imm hf eqbM rt_handle k sc st ls).
+  Proof. exact (prun_imm_prun hf eqbM). Qed.
+
+  Theorem C01_redelivery_is_immediate : forall k sc srcs ls,
+    immediate_ok eqbM (dlog (prun_imm hf eqbM rt_handle k sc (pinit srcs) ls)) = true.
+  Proof. exact (immediate_run hf eqbM eqbM_spec). Qed.
+
+  Theorem C01_at_least_once_immediate : forall k sc srcs ls, eventually_clean k sc ->
+    let st := prun_imm hf eqbM rt_handle k sc (pinit srcs) ls in
+    Acc (psucc_imm hf eqbM k sc) st
+    /\ (quiescentb k st = false -> exists l, pstep_imm hf eqbM rt_handle k sc st l <> None)
+    /\ (quiescentb k st = true ->
+          (forall y, In y (expected_sink hf k srcs) -> In y (topic st k))
+          /\ sink_complete hf eqbM k srcs (topic st k) = true).
+  Proof. exact (at_least_once_imm hf eqbM eqbM_spec). Qed.
 
   (** never lost: at every moment every expected arrival is at the final topic or has a
       pending ancestor at some topic *)
@@ -187,6 +211,9 @@ Print Assumptions C01_nothing_invented.
 Print Assumptions C01_ack_only_after_next_accepted.
 Print Assumptions C01_pending_until_acked.
 Print Assumptions C01_redelivered_until_acked.
+Print Assumptions C01_guarded_run_is_run.
+Print Assumptions C01_redelivery_is_immediate.
+Print Assumptions C01_at_least_once_immediate.
 Print Assumptions C01_never_lost.
 Print Assumptions C01_at_least_once.
 Print Assumptions C01_every_source_reaches_the_sink.
